@@ -101,7 +101,7 @@ func Sqrt(x complex64) complex64 {
 		t = scale * math.Abs((0.5*b)/r)
 		r *= scale
 	}
-	if b < 0 {
+	if imag(x) < 0 {
 		return complex(t, -r)
 	}
 	return complex(t, r)
